@@ -257,7 +257,7 @@ func c02OpensExistingForAppend(s *c02Src) (appendMode Tri, truncates Tri, where 
 		return No, No, where
 	case len(truncCalls) > 0 || len(s.w.Calls(oe, "fw.createNewFile")) > 0:
 		// the repaired open: a file too short for header (and name) is started over — two
-		// `return fw.createNewFile()` — and a torn tail is cut by walking the block headers
+		// `return fw.createNewFile()`, a third for a zero header — and a torn tail is cut by walking the block headers
 		recreate := len(s.w.Calls(oe, "fw.createNewFile"))
 		walks := s.w.Contains(oe, "file.ReadAt(") && s.w.Contains(oe, "BlockHeaderSize")
 		if len(truncCalls) == 1 && len(truncCalls[0].Args) == 1 && s.w.Str(truncCalls[0].Args[0]) == "end" && recreate == 2 && walks && seekEnd {
@@ -272,6 +272,105 @@ func c02OpensExistingForAppend(s *c02Src) (appendMode Tri, truncates Tri, where 
 
 // readNextBlock: short header read → io.EOF; payload ReadFull error returned as is, or
 // io.ErrUnexpectedEOF mapped to io.EOF
+// readNextBlock: a zero size field is EOF, and a block that does not parse is EOF when zeroFilledTail says so;
+// zeroFilledTail: last payload byte zero and nothing but zero bytes up to the end of the file.
+func c02ZeroTailIsEOF(s *c02Src) (Tri, string) {
+	if s.r == nil {
+		return Unknown, ""
+	}
+	fd := s.r.Func("FileReader", "readNextBlock")
+	if fd == nil {
+		return Unknown, c02Reader
+	}
+	where := c02Where(s.r, fd)
+	zf := s.r.Func("FileReader", "zeroFilledTail")
+	mentions := s.r.Contains(fd, "CompressedSize == 0") || s.r.Contains(fd, "zeroFilledTail") || zf != nil
+	if !mentions {
+		return No, where
+	}
+	zeroSize, zeroTail, sizeCheckAt, zeroAt := false, false, -1, -1
+	for i, st := range fd.Body.List {
+		ifs, ok := st.(*ast.IfStmt)
+		if !ok {
+			continue
+		}
+		cond := s.r.Str(ifs.Cond)
+		if strings.HasSuffix(cond, ".CompressedSize == 0") && len(ifs.Body.List) == 1 && s.r.Str(ifs.Body.List[0]) == "return nil, io.EOF" {
+			zeroSize, zeroAt = true, i
+		}
+		if strings.Contains(cond, "CompressedSize") && strings.Contains(cond, ">") && sizeCheckAt < 0 {
+			sizeCheckAt = i
+		}
+		if cond == "err != nil" && i > 0 && strings.Contains(s.r.Str(fd.Body.List[i-1]), "ParseBlock(") {
+			for _, in := range ifs.Body.List {
+				if x, ok := in.(*ast.IfStmt); ok && s.r.Str(x.Cond) == "fr.zeroFilledTail(compressedData)" &&
+					len(x.Body.List) == 1 && s.r.Str(x.Body.List[0]) == "return nil, io.EOF" {
+					zeroTail = true
+				}
+			}
+		}
+	}
+	zfOK := zf != nil && s.r.Contains(zf, "payload[len(payload)-1] != 0") && s.r.Contains(zf, "fr.file.Read(buf)") &&
+		s.r.Contains(zf, "if b != 0 { return false }") && s.r.Contains(zf, "return errors.Is(err, io.EOF)")
+	if zeroSize && zeroTail && zfOK && (sizeCheckAt < 0 || zeroAt < sizeCheckAt) {
+		return Yes, where
+	}
+	return Unknown, where
+}
+
+// openExistingFile: the walk stops at a zero size field, the last accepted block is checked against its
+// checksum (blockIntactAt), a zero file header restarts the file; and (item: damage in the middle) nothing is cut
+// when intactBlockBehind finds a whole block behind the cut point.
+func c02OpenZeroFacts(s *c02Src) (cutsZero, spares Tri, where string) {
+	if s.w == nil {
+		return Unknown, Unknown, ""
+	}
+	fd := s.w.Func("FileWriter", "openExistingFile")
+	if fd == nil {
+		return Unknown, Unknown, c02Writer
+	}
+	where = c02Where(s.w, fd)
+	cutsZero, spares = Unknown, Unknown
+	bi, ib := s.w.Func("", "blockIntactAt"), s.w.Func("", "intactBlockBehind")
+	if !s.w.Contains(fd, "next == end+BlockHeaderSize") && !s.w.Contains(fd, "size == 0") && !s.w.Contains(fd, "blockIntactAt") && bi == nil {
+		cutsZero = No
+	} else {
+		walk := s.w.Contains(fd, "if next == end+BlockHeaderSize { break }") && s.w.Contains(fd, "last, end = end, next")
+		last := s.w.Contains(fd, "if last >= 0 && !blockIntactAt(file, last, end) { end = last }")
+		so := s.w.Func("FileWriter", "startOver")
+		hdr := s.w.Contains(fd, "if bytes.Count(headerBuf, []byte{0}) == len(headerBuf) { file.Close() return fw.startOver() }") &&
+			so != nil && s.w.Str(so.Body) == "{ return fw.createNewFile() }"
+		biOK := bi != nil && s.w.Contains(bi, "file.ReadAt(buf, start)") &&
+			s.w.Contains(bi, "return ValidateChecksum(buf[BlockHeaderSize:], binary.LittleEndian.Uint32(buf[10:14]))")
+		if walk && last && hdr && biOK {
+			cutsZero = Yes
+		}
+	}
+	if !s.w.Contains(fd, "intactBlockBehind") && ib == nil {
+		spares = No
+	} else {
+		// `if end < info.Size() && intactBlockBehind(...) { file.Close(); return error }` directly in front of the cut
+		guard := false
+		for k, st := range fd.Body.List {
+			g, ok := st.(*ast.IfStmt)
+			if !ok || s.w.Str(g.Cond) != "end < info.Size() && intactBlockBehind(file, end, info.Size())" || k+1 >= len(fd.Body.List) {
+				continue
+			}
+			body, next := s.w.Str(g.Body), s.w.Str(fd.Body.List[k+1])
+			if strings.Contains(body, "file.Close()") && strings.Contains(body, "return fmt.Errorf(") &&
+				strings.HasPrefix(next, "if end < info.Size() { if err := file.Truncate(end); err != nil") {
+				guard = true
+			}
+		}
+		ibOK := ib != nil && s.w.Contains(ib, "for i := 1; i+BlockHeaderSize < len(tail); i++") &&
+			s.w.Contains(ib, "ValidateChecksum(tail[i+BlockHeaderSize:i+BlockHeaderSize+n], binary.LittleEndian.Uint32(tail[i+10:i+14]))")
+		if guard && ibOK {
+			spares = Yes
+		}
+	}
+	return
+}
+
 func c02ReaderFacts(s *c02Src) (shortHdr, tornData Tri, where string) {
 	if s.r == nil {
 		return Unknown, Unknown, ""
@@ -286,6 +385,14 @@ func c02ReaderFacts(s *c02Src) (shortHdr, tornData Tri, where string) {
 		return Unknown, Unknown, c02Where(s.r, ra)
 	}
 	shortHdr, tornData = Unknown, Unknown
+	// the variable that receives the byte count of the header read
+	nv := ""
+	ast.Inspect(fd.Body, func(x ast.Node) bool {
+		if as, ok := x.(*ast.AssignStmt); ok && len(as.Lhs) == 2 && len(as.Rhs) == 1 && s.r.Str(as.Rhs[0]) == "fr.file.Read(headerBuf)" && nv == "" {
+			nv = s.r.Str(as.Lhs[0])
+		}
+		return true
+	})
 	pre := Unknown // the size pre-check (`CompressedSize > remaining`), when there is one
 	hasPre := false
 	for _, st := range fd.Body.List {
@@ -294,11 +401,15 @@ func c02ReaderFacts(s *c02Src) (shortHdr, tornData Tri, where string) {
 			continue
 		}
 		cond := s.r.Str(ifs.Cond)
-		if cond == "n < BlockHeaderSize" && len(ifs.Body.List) == 1 {
-			if s.r.Str(ifs.Body.List[0]) == "return nil, io.EOF" {
+		// `<count> < BlockHeaderSize`, <count> being the first result of the header Read (whatever its name)
+		if nv != "" && cond == nv+" < BlockHeaderSize" && len(ifs.Body.List) == 1 {
+			switch s.r.Str(ifs.Body.List[0]) {
+			case "return nil, io.EOF":
 				shortHdr = Yes
-			} else {
+			case "return nil, io.ErrUnexpectedEOF", "return nil, ErrCorruptedBlock", "return nil, err":
 				shortHdr = No
+			default:
+				shortHdr = Unknown // a shape this extractor does not know: never `no`
 			}
 		}
 		// site 1: a comparison of CompressedSize with what is left of the file, before the allocation
@@ -430,6 +541,11 @@ func init() {
 		fs.Tri("chronSyncForwards", t, w)
 		t, w = c25FlushesAtCountBound(s)
 		fs.Tri("flushesAtCountBound", t, w)
+		t, w = c02ZeroTailIsEOF(s)
+		fs.Tri("zeroTailIsEOF", t, w)
+		cz, sp, w := c02OpenZeroFacts(s)
+		fs.Tri("openCutsZeroTail", cz, w)
+		fs.Tri("openSparesMidFileDamage", sp, w)
 		c25ReaderAssumptions(fs, s)
 	}})
 }
